@@ -17,7 +17,7 @@ theorem nop_sentinel_is_not_nop (env : Env) : (decode env 0x1f2003d5#32).map (fu
   cases hd : decode env 0x1f2003d5#32 with
   | none => simp [hd] at h
   | some r =>
-    obtain ⟨row, hm, ho, hv⟩ := decodeFrom_row env _ table 0 r hd
+    obtain ⟨row, hm, ho, hv, _⟩ := decodeFrom_row env _ table 0 r hd
     have hall : table.all (fun r => !(opName r.op == "NOP") || (0x1f2003d5#32 &&& r.mask != r.value)) = true := by decide +kernel
     have := List.all_eq_true.mp hall row hm
     simp [hd] at h
